@@ -19,19 +19,19 @@ open DK
 /-- whatever the optimiser answers, if it reports `success = false` — with ANY status and ANY `x` —
 `solve` raises `OptimizationException` carrying that result (unless the fixed-flow shortcut applied,
 in which case the optimiser is not called at all). -/
-theorem solve_raises_on_failure (d : SDev ℝ) (P : Mat ℝ) (s0? : Option (ℕ → ℝ)) (prox : Option ℝ) (cb : Bool) (tol : ℝ)
+theorem solve_raises_on_failure (d : SDev ℝ) (P : Mat ℝ) (s0? : Option (ℕ → ℝ)) (prox : Option ℝ) (cb : Bool) (tol : ℝ) (maxiter : ℕ)
     (minimize : Problem ℝ → Result ℝ)
     (hns : allFixed d.dim d.flatBounds = false)
-    (hfail : (minimize (solveProblem d P (startPoint d s0?) prox cb)).success = false) :
-    solve d P s0? prox cb tol minimize = .error (.result (minimize (solveProblem d P (startPoint d s0?) prox cb))) := by
+    (hfail : (minimize ((solveProblem d P (startPoint d s0?) prox cb).withOpts tol maxiter)).success = false) :
+    solve d P s0? prox cb tol maxiter minimize = .error (.result (minimize ((solveProblem d P (startPoint d s0?) prox cb).withOpts tol maxiter))) := by
   unfold solve
   simp [hns, hfail]
 
 /-- the fault-injection form: a stub that answers `r` (any `x`, any `status`) with `success = false`. -/
-theorem solve_raises_on_every_status (d : SDev ℝ) (P : Mat ℝ) (s0? : Option (ℕ → ℝ)) (prox : Option ℝ) (cb : Bool) (tol : ℝ)
+theorem solve_raises_on_every_status (d : SDev ℝ) (P : Mat ℝ) (s0? : Option (ℕ → ℝ)) (prox : Option ℝ) (cb : Bool) (tol : ℝ) (maxiter : ℕ)
     (r : Result ℝ) (hns : allFixed d.dim d.flatBounds = false) (hfail : r.success = false) :
-    solve d P s0? prox cb tol (fun _ => r) = .error (.result r) :=
-  solve_raises_on_failure d P s0? prox cb tol (fun _ => r) hns hfail
+    solve d P s0? prox cb tol maxiter (fun _ => r) = .error (.result r) :=
+  solve_raises_on_failure d P s0? prox cb tol maxiter (fun _ => r) hns hfail
 
 /-- a device with one free slot: the hypotheses are satisfiable. -/
 def exDev : SDev ℝ :=
@@ -41,9 +41,9 @@ def exDev : SDev ℝ :=
 theorem exDev_not_fixed : allFixed exDev.dim exDev.flatBounds = false := by
   simp [allFixed, exDev, SDev.dim, SDev.flatBounds, List.range, List.range.loop]
 
-example : solve exDev (fun _ _ => 1) none none false (1/1000000) (fun _ => ⟨fun _ => 7, false, 4⟩)
+example : solve exDev (fun _ _ => 1) none none false (1/1000000) 1000 (fun _ => ⟨fun _ => 7, false, 4⟩)
     = .error (.result ⟨fun _ => 7, false, 4⟩) :=
-  solve_raises_on_every_status _ _ _ _ _ _ _ exDev_not_fixed rfl
+  solve_raises_on_every_status _ _ _ _ _ _ _ _ exDev_not_fixed rfl
 
 /-! ## (b) what an `ok` outcome can be -/
 
@@ -77,12 +77,12 @@ theorem allWithin_zero_iff (d : SDev ℝ) (x : ℕ → ℝ) :
 /-- a returned flow is either the fixed-flow shortcut (lower bounds reshaped, no optimiser result, and
 every constraint holds within the tolerance there) or the reshaped `x` of an optimiser result that
 reported success. -/
-theorem solve_ok_cases (d : SDev ℝ) (P : Mat ℝ) (s0? : Option (ℕ → ℝ)) (prox : Option ℝ) (cb : Bool) (tol : ℝ)
+theorem solve_ok_cases (d : SDev ℝ) (P : Mat ℝ) (s0? : Option (ℕ → ℝ)) (prox : Option ℝ) (cb : Bool) (tol : ℝ) (maxiter : ℕ)
     (minimize : Problem ℝ → Result ℝ) (S : Mat ℝ) (r? : Option (Result ℝ))
-    (h : solve d P s0? prox cb tol minimize = .ok (S, r?)) :
+    (h : solve d P s0? prox cb tol maxiter minimize = .ok (S, r?)) :
     (allFixed d.dim d.flatBounds = true ∧ S = unflat d.n (lowFlow d) ∧ r? = none ∧ AllWithin d tol (lowFlow d))
     ∨ (allFixed d.dim d.flatBounds = false ∧
-        ∃ r, r = minimize (solveProblem d P (startPoint d s0?) prox cb) ∧ r.success = true
+        ∃ r, r = minimize ((solveProblem d P (startPoint d s0?) prox cb).withOpts tol maxiter) ∧ r.success = true
           ∧ S = unflat d.n r.x ∧ r? = some r) := by
   unfold solve at h
   by_cases hf : allFixed d.dim d.flatBounds = true
@@ -98,14 +98,14 @@ theorem solve_ok_cases (d : SDev ℝ) (P : Mat ℝ) (s0? : Option (ℕ → ℝ))
   · right
     rw [if_neg hf] at h
     simp only [Bool.not_eq_true] at hf
-    by_cases hs : (minimize (solveProblem d P (startPoint d s0?) prox cb)).success = true
+    by_cases hs : (minimize ((solveProblem d P (startPoint d s0?) prox cb).withOpts tol maxiter)).success = true
     · simp only [hs, if_true] at h
       injection h with h
       injection h with h1 h2
       exact ⟨hf, _, rfl, hs, h1.symm, h2.symm⟩
     · simp [hs] at h
 
-example : solve exDev (fun _ _ => 1) none none false (1/1000000) (fun _ => ⟨fun _ => 7, true, 0⟩)
+example : solve exDev (fun _ _ => 1) none none false (1/1000000) 1000 (fun _ => ⟨fun _ => 7, true, 0⟩)
     = .ok (unflat 2 (fun _ => 7), some ⟨fun _ => 7, true, 0⟩) := by
   unfold solve
   rw [if_neg (by rw [exDev_not_fixed]; simp)]
@@ -115,9 +115,9 @@ example : solve exDev (fun _ _ => 1) none none false (1/1000000) (fun _ => ⟨fu
 reshaped) exactly when every constraint holds within the tolerance at the lower-bound flow, and
 `OptimizationException` otherwise. -/
 theorem shortcut_checks_constraints (d : SDev ℝ) (P : Mat ℝ) (s0? : Option (ℕ → ℝ)) (prox : Option ℝ) (cb : Bool)
-    (tol : ℝ) (minimize : Problem ℝ → Result ℝ) (hf : allFixed d.dim d.flatBounds = true) :
-    (AllWithin d tol (lowFlow d) → solve d P s0? prox cb tol minimize = .ok (unflat d.n (lowFlow d), none)) ∧
-    (¬ AllWithin d tol (lowFlow d) → solve d P s0? prox cb tol minimize = .error .fixedInfeasible) := by
+    (tol : ℝ) (maxiter : ℕ) (minimize : Problem ℝ → Result ℝ) (hf : allFixed d.dim d.flatBounds = true) :
+    (AllWithin d tol (lowFlow d) → solve d P s0? prox cb tol maxiter minimize = .ok (unflat d.n (lowFlow d), none)) ∧
+    (¬ AllWithin d tol (lowFlow d) → solve d P s0? prox cb tol maxiter minimize = .error .fixedInfeasible) := by
   unfold solve
   rw [if_pos hf]
   constructor
@@ -128,9 +128,9 @@ theorem shortcut_checks_constraints (d : SDev ℝ) (P : Mat ℝ) (s0? : Option (
 
 /-- hence `ok` iff the constraints hold within the tolerance. -/
 theorem shortcut_ok_iff (d : SDev ℝ) (P : Mat ℝ) (s0? : Option (ℕ → ℝ)) (prox : Option ℝ) (cb : Bool)
-    (tol : ℝ) (minimize : Problem ℝ → Result ℝ) (hf : allFixed d.dim d.flatBounds = true) :
-    (∃ v, solve d P s0? prox cb tol minimize = .ok v) ↔ AllWithin d tol (lowFlow d) := by
-  have h := shortcut_checks_constraints d P s0? prox cb tol minimize hf
+    (tol : ℝ) (maxiter : ℕ) (minimize : Problem ℝ → Result ℝ) (hf : allFixed d.dim d.flatBounds = true) :
+    (∃ v, solve d P s0? prox cb tol maxiter minimize = .ok v) ↔ AllWithin d tol (lowFlow d) := by
+  have h := shortcut_checks_constraints d P s0? prox cb tol maxiter minimize hf
   constructor
   · rintro ⟨v, hv⟩
     by_contra hn
@@ -171,12 +171,12 @@ theorem exFixedCon_within (c : ℝ) : AllWithin (exFixedCon c) (1/1000000) (lowF
   norm_num
 
 /-- satisfied (`3 ≥ 2`): returned; violated (`3 ≥ 4` fails): raised — both hypotheses are satisfiable. -/
-example (m : Problem ℝ → Result ℝ) : solve (exFixedCon 2) (fun _ _ => 1) none none false (1/1000000) m
+example (m : Problem ℝ → Result ℝ) : solve (exFixedCon 2) (fun _ _ => 1) none none false (1/1000000) 1000 m
     = .ok (unflat (exFixedCon 2).n (lowFlow (exFixedCon 2)), none) :=
-  (shortcut_checks_constraints (exFixedCon 2) _ _ _ _ _ m (exFixedCon_fixed 2)).1 ((exFixedCon_within 2).mpr (by norm_num))
+  (shortcut_checks_constraints (exFixedCon 2) _ _ _ _ _ _ m (exFixedCon_fixed 2)).1 ((exFixedCon_within 2).mpr (by norm_num))
 
-example (m : Problem ℝ → Result ℝ) : solve (exFixedCon 4) (fun _ _ => 1) none none false (1/1000000) m = .error .fixedInfeasible :=
-  (shortcut_checks_constraints (exFixedCon 4) _ _ _ _ _ m (exFixedCon_fixed 4)).2
+example (m : Problem ℝ → Result ℝ) : solve (exFixedCon 4) (fun _ _ => 1) none none false (1/1000000) 1000 m = .error .fixedInfeasible :=
+  (shortcut_checks_constraints (exFixedCon 4) _ _ _ _ _ _ m (exFixedCon_fixed 4)).2
     (fun h => by have := (exFixedCon_within 4).mp h; norm_num at this)
 
 example (y : ℕ → ℝ) (hy : ∀ k < exFixed.dim, (exFixed.flatBounds k).1 ≤ y k ∧ y k ≤ (exFixed.flatBounds k).2) :
